@@ -357,7 +357,8 @@ def run(ctx):
             curves, scales = [], []
             for oi, o in enumerate(outs):
                 # one scale per output (the values are generated around it); MODE GRAD selects a logarithmic scale: both edges > 0
-                positive = rng.random() < 0.4
+                forced_log = pi % 8 in (0, 5)          # every tier plots logarithmic curves whose values leave the scale
+                positive = forced_log or rng.random() < 0.4
                 if positive:
                     le, re_ = rng.choice([(0.25, 2048.0), (2048.0, 0.25), (1.0, 16.0), (0.5, 512.0)])
                 else:
@@ -365,6 +366,8 @@ def run(ctx):
                 scales.append((le, re_))
                 for k in range(rng.choice([1, 1, 2])):
                     modes = [b'SHIF', b'WRAP', b'NB  ', b'X10 '] + ([b'GRAD', b'GRAD'] if min(le, re_) > 0 else [])
+                    if forced_log:
+                        modes = [b'GRAD']
                     curves.append(dict(mnem=b'C%d%d ' % (oi, k), outp=o, trac=rng.choice([b'T1  ', b'T2  ', b'T3  ', b'T23 ', b'T12 ']), dest=film,
                                        mode=rng.choice(modes), le=le, re=re_))
             case.update(film=film.decode().strip(), curves=[dict(outp=c['outp'].decode(), trac=c['trac'].decode(), mode=c['mode'].decode(), le=c['le'], re=c['re']) for c in curves])
@@ -387,6 +390,8 @@ def run(ctx):
                 continue
             film_id = uid
         profs = [dict(kind=rng.choice(profiles), absent=rng.random() < 0.5) for _ in outs]
+        if not use_xml and pi % 8 in (0, 5):
+            profs = [dict(kind=rng.choice(['ramp', 'spiky', 'ramp']), absent=rng.random() < 0.3) for _ in outs]
         case['profiles'] = [(p['kind'], p['absent']) for p in profs]
         # the frames' X units and the units the plot range is asked in are independent
         xunits, runits = rng.choice([(b'FEET', b'FEET'), (b'FEET', b'FEET'), (b'.1IN', b'FEET'), (b'FEET', b'.1IN'), (b'.1IN', b'.1IN'), (b'M   ', b'M   ')])
